@@ -7,7 +7,7 @@ import random
 from typing import Any
 
 from harness import c02_util as U
-from harness.common import Ck, coq_list, coq_str
+from harness.common import VERIF, Ck, coq_list, coq_str
 from translate import c02_tables
 
 MANIFEST = dict(
@@ -216,9 +216,13 @@ def corr_random(ck: Ck, escalate: bool) -> None:
     m = 4000 if (ck.thorough or escalate or ck.tie_broken) else 1000
     rng = ck.rng
     flat, chk = [], []
+    corpus = [(t, b) for t in json.loads((VERIF / 'corpus' / 'C03' / 'texts.json').read_text()) for b in (6, 0, 127, 0b0011110)]
     for i in range(m):
-        s = gen_text(rng)
-        bits = rng.choice(ALL_BITS)
+        if i < len(corpus):
+            s, bits = corpus[i]
+        else:
+            s = gen_text(rng)
+            bits = rng.choice(ALL_BITS)
         flat.append((bits, s, U.hash_list(U.tok_case(bits, s))))
         ck.count('corr_random_flat')
         ck.hist('corr_random_len', len(s) // 10 * 10)
@@ -584,5 +588,13 @@ def replay(data: dict) -> int:
         b = U.impl_results(iter(cs), bits, len(s) + 2)
         print(f'text {s!r} options {U.opts_of_bits(bits)}\n one string       : {U.decode_results(a)}\n chunks {cs!r}: {U.decode_results(b)}')
         bad = a != b or 4 in _markers(a) or eof_oracle(s, bits) is not None or reads_oracle(s, bits, None) is not None
+        from harness.common import parse_coq_N_list
+        mv = U.model_eval([f'tok_case {bits} {coq_str(s)}', f'chk_case {bits} false {coq_list(coq_str(c) for c in cs)}'])
+        if mv is not None:
+            m = parse_coq_N_list(mv[0])[2 + len(s):]
+            print(f' model (flat)     : {U.decode_results(m)}')
+            print(f' model == implementation on the single string: {m == a};  model chunked trace (results, _char_index+1, len(_cur_chunk)): {mv[1]}')
+        else:
+            print(' model: not evaluated (rocq/ not built?)')
     print('VIOLATED' if bad else 'property holds on this input')
     return 1 if bad else 0
